@@ -143,7 +143,15 @@ func c11DvFamily(c *c11Ctx, pfx string, h int64, val string, rng *rand.Rand) {
 	} else if nv != g.Power || c11Total(c.valsAt(h+1)) != g.Total {
 		late = pfx + "valsnext"
 	}
-	c.Pairs["q"+pfx] = &c11Pair{H: h, Val: val, BlkA: "b1", BlkB: "b2", Dv: pfx + "genuine", Late: late}
+	c.Pairs["q"+pfx] = &c11Pair{H: h, T: 2, Val: val, BlkA: "b1", BlkB: "b2", Dv: pfx + "genuine", Late: late}
+	// the same validator double-signing its PREVOTE in the same round over the same blocks
+	vlate := pfx + "prevotes"
+	if late == "nil" {
+		vlate = "nil"
+	} else if late != pfx+"genuine" {
+		vlate = "?" + pfx + "prevotes-with-next-set"
+	}
+	c.Pairs["v"+pfx] = &c11Pair{H: h, T: 1, Val: val, BlkA: "b1", BlkB: "b2", Dv: pfx + "prevotes", Late: vlate}
 	add("total", func(d *c11Dv) { d.Total++ })
 	add("power", func(d *c11Dv) { d.Power++ })
 	add("timeplus", func(d *c11Dv) { d.Time++ })
@@ -448,7 +456,7 @@ func c11RunRandom(t *testing.T, out *c11Writer, run int, rng *rand.Rand, conc bo
 		case r < 44:
 			w.exec(out, run, c11Op{Op: "Check", IDs: pickList(1 + rng.Intn(3))})
 		case r < 52:
-			w.exec(out, run, c11Op{Op: "Report", Pair: pairs[rng.Intn(len(pairs))]})
+			w.exec(out, run, c11Op{Op: "Report", Pair: pairs[rng.Intn(len(pairs))], Swap: rng.Intn(2) == 0})
 		case r < 60:
 			b := bounds()
 			if b < -1 {
